@@ -146,7 +146,7 @@ def make_filter_class(script, rec, w=None, meta=None):
     return Scripted
 
 
-def run_script(script, with_lineage=True, beats=0, race=False, slow=False, late=False, reuse=None):
+def run_script(script, with_lineage=True, beats=0, race=False, slow=False, late=False, reuse=None, in_handler=False):
     """-> dict(trace, result, stop_set, open_sockets, announced, events)
     late: the heartbeat thread is slow to get going (a loaded machine) - nothing of the run's history may depend on it;
     reuse: (emitter, client) of an earlier run of this process - Filter.emitter is one object per process, a second
@@ -235,11 +235,20 @@ def run_script(script, with_lineage=True, beats=0, race=False, slow=False, late=
         Filter.emitter = emitter
         with simzmq.Patched(w):
             rec.append(['c'])
-            try:
+            def go():
                 cls.run(dict(id='flt', outputs='tcp://*:7700', outputs_metrics=False, outputs_filter=False,
                              **script.get('config', {})),
                         loop_exc=script['loop_exc'], prop_exit={0: 'none', 1: 'clean', 2: 'error', 3: 'all'}[script['prop_exit']],
                         obey_exit='all', stop_evt=stop_evt, sig_stop=False)
+            try:
+                if in_handler:
+                    # a supervisor's retry: the run is started from inside the except block that handles an earlier failure
+                    try:
+                        raise OSError('the previous attempt failed')
+                    except OSError:
+                        go()
+                else:
+                    go()
             except TypeError as e:
                 result = 'TypeError: %s' % e
             except Boom:
@@ -369,6 +378,12 @@ def life_oracle(run, s, obs, props):
     faults = [(w, o) for w, o in reached if o != 'ok']
     key = ' '.join('%s=%s' % f for f in faults) or 'no-fault'
     if 'C08' in props:
+        # what is announced is how THIS run ends: with no exception raised at any stage (only exit() calls / the stop event)
+        # the announcement, if there is one, says 'clean' - wherever run() was called from
+        raised = [w for w, o in reached if o in ('exc', 'base', 'prop') and w != 'fini']
+        if not raised and ['e', True] in [list(r) for r in tr]:
+            run.violation('announce:clean-end-announced-as-error %s%s' % (key, ' in-handler' if s.get('in_handler') else ''),
+                          'no stage of the run raised, and the exit was announced to the neighbours as an ERROR exit', case)
         setup_done = 's' in names and s['setup'] == 'ok' and s['init'] == 'ok' and s['ctor'] == 'ok'
         if names.count('d') != (1 if setup_done else 0):
             run.violation('shutdown-count %s' % key, 'shutdown() ran %d times, setup completed=%s' % (names.count('d'), setup_done), case)
